@@ -1,6 +1,7 @@
 package main
 
 import (
+	"fmt"
 	"os"
 	"runtime"
 	"sync"
@@ -203,8 +204,47 @@ func tsync(c *Case) {
 	instMu.Lock()
 	installs = nil // only the loader's call is reported (threads with a filter of their own loaded earlier)
 	instMu.Unlock()
+	sideErr := "-"
+	if tc.SideLoadAtHook {
+		fired := false
+		sidePolicy := seccomp.Policy{DefaultAction: seccomp.ActionAllow, Syscalls: []seccomp.SyscallGroup{{Names: []string{"getpgrp", "vhangup"}, Action: seccomp.ActionErrno}}}
+		sideLoad := func() {
+			done := make(chan [2]any)
+			go func() {
+				runtime.LockOSThread() // never unlocked: the thread exits with the goroutine
+				e := seccomp.LoadFilter(seccomp.Filter{NoNewPrivs: true, Flag: seccomp.FilterFlag(0), Policy: sidePolicy})
+				done <- [2]any{syscall.Gettid(), errString(e)}
+			}()
+			r := <-done
+			sideErr = r[1].(string)
+			// until that thread is gone: a thread with another filter makes the kernel refuse a thread-sync load
+			for k := 0; k < 120; k++ {
+				if _, err := os.Stat(fmt.Sprintf("/proc/self/task/%d", r[0].(int))); err != nil {
+					break
+				}
+				time.Sleep(5 * time.Millisecond)
+			}
+		}
+		// a completed load earlier in the life of the process, on a thread that is gone: the judged policy itself, without
+		// thread-sync (whatever such a load leaves behind in the process is large enough for the loads that follow)
+		small := sidePolicy
+		sidePolicy = f.Policy
+		sideLoad()
+		sidePolicy = small
+		instMu.Lock()
+		installs = nil
+		instMu.Unlock()
+		seccomp.VerifPoint = func(name string) {
+			if name != "post-prctl" || fired || syscall.Gettid() != loaderTid {
+				return
+			}
+			fired = true
+			sideLoad()
+		}
+	}
 	loading.Store(true)
 	err := seccomp.LoadFilter(f)
+	seccomp.VerifPoint = nil
 	if err == nil {
 		loaded.Store(true)
 	}
@@ -216,7 +256,7 @@ func tsync(c *Case) {
 	if err != nil {
 		stop.Store(true)
 		wg.Wait()
-		emit(map[string]any{"ev": "loaded", "ok": false, "err": err.Error()})
+		emit(map[string]any{"ev": "loaded", "ok": false, "err": err.Error(), "side_err": sideErr})
 		emit(map[string]any{"ev": "done"})
 		return
 	}
@@ -244,13 +284,18 @@ func tsync(c *Case) {
 	stop.Store(true)
 	after := snapshot()
 	instMu.Lock()
-	ins := append([]installed(nil), installs...)
+	var ins []installed
+	for _, in := range installs {
+		if in.Tid == loaderTid { // the loader is locked to its thread; other threads' loads are their own
+			ins = append(ins, in)
+		}
+	}
 	instMu.Unlock()
 	logsMu.Lock()
 	for _, l := range logs {
 		l.ObsS = string(l.Obs)
 	}
-	emit(map[string]any{"ev": "loaded", "ok": true, "loader_tid": loaderTid, "installs": ins, "before": before, "at_load": atLoad, "after": after,
+	emit(map[string]any{"ev": "loaded", "ok": true, "loader_tid": loaderTid, "side_err": sideErr, "installs": ins, "before": before, "at_load": atLoad, "after": after,
 		"logs": logs, "probes_total": seq.Load(), "spawned": spawned.Load()})
 	logsMu.Unlock()
 	emit(map[string]any{"ev": "done"})
